@@ -67,17 +67,17 @@ Handler *build(const Val &n, Log *log, QObject *parent)
 }
 
 // one connection driven by an op schedule against [server]
-static void runConnection(Server *server, Log &log, const Val &ops)
+void runConnectionOn(Server *server, Val &log, const Val &ops)
 {
     SimTcp *tcp = new SimTcp;
-    tcp->onWrite = [&log](const QByteArray &b) { log.v.add(Val::List({Val::Int(5), Val::Bytes(b)})); };
-    tcp->onClose = [&log]() { log.v.add(Val::List({Val::Int(6)})); };
+    tcp->onWrite = [&log](const QByteArray &b) { log.add(Val::List({Val::Int(5), Val::Bytes(b)})); };
+    tcp->onClose = [&log]() { log.add(Val::List({Val::Int(6)})); };
     QPointer<SimTcp> tcpGuard(tcp);
     QPointer<Socket> sock;
     auto avail = [&sock]() -> qint64 { return (sock && sock->isOpen()) ? sock->bytesAvailable() : -1; };
     long long opIndex = 0;
     for (auto &op : ops.l) {
-        log.v.add(Val::List({Val::Int(20), Val::Int(opIndex++)}));
+        log.add(Val::List({Val::Int(20), Val::Int(opIndex++)}));
         switch (op.at(0).asInt()) {
         case 0: if (sock) { if (tcpGuard) tcp->feed(op.at(1).asBytes()); } else if (tcpGuard) tcp->queue(op.at(1).asBytes()); break;
         case 1: if (tcpGuard && sock) tcp->ack(op.at(1).asInt()); break;
@@ -95,14 +95,14 @@ static void runConnection(Server *server, Log &log, const Val &ops)
                     Val q = Val::List();
                     auto qs = s->queryString();
                     for (auto i = qs.constBegin(); i != qs.constEnd(); ++i) q.add(Val::List({Val::Str(i.key()), Val::Str(i.value())}));
-                    log.v.add(Val::List({Val::Int(8), Val::Int(int(s->method())), Val::Bytes(s->rawPath()), Val::Str(s->path()), q,
+                    log.add(Val::List({Val::Int(8), Val::Int(int(s->method())), Val::Bytes(s->rawPath()), Val::Str(s->path()), q,
                                          headersVal(s->headers()), Val::Int(s->contentLength())}));
-                    log.v.add(Val::List({Val::Int(0), Val::Int(avail())}));
+                    log.add(Val::List({Val::Int(0), Val::Int(avail())}));
                 });
-                QObject::connect(s, &Socket::readyRead, [&log, avail]() { log.v.add(Val::List({Val::Int(1), Val::Int(avail())})); });
-                QObject::connect(s, &Socket::readChannelFinished, [&log, avail]() { log.v.add(Val::List({Val::Int(2), Val::Int(avail())})); });
-                QObject::connect(s, &Socket::bytesWritten, [&log](qint64 n) { log.v.add(Val::List({Val::Int(3), Val::Int(n)})); });
-                QObject::connect(s, &Socket::disconnected, [&log]() { log.v.add(Val::List({Val::Int(9)})); });
+                QObject::connect(s, &Socket::readyRead, [&log, avail]() { log.add(Val::List({Val::Int(1), Val::Int(avail())})); });
+                QObject::connect(s, &Socket::readChannelFinished, [&log, avail]() { log.add(Val::List({Val::Int(2), Val::Int(avail())})); });
+                QObject::connect(s, &Socket::bytesWritten, [&log](qint64 n) { log.add(Val::List({Val::Int(3), Val::Int(n)})); });
+                QObject::connect(s, &Socket::disconnected, [&log]() { log.add(Val::List({Val::Int(9)})); });
             }
             break;
         case 5: if (tcpGuard) tcp->peerDrop(); break;
@@ -120,7 +120,7 @@ static Val run_srv(const Val &c)
     QObject scope;
     Server *server = new Server(&scope);
     if (c.at(0).size()) server->setHandler(build(c.at(0), &log, &scope));
-    runConnection(server, log, c.at(1));
+    runConnectionOn(server, log.v, c.at(1));
     delete server;
     QCoreApplication::sendPostedEvents(nullptr, QEvent::DeferredDelete);
     return log.v;
@@ -136,7 +136,7 @@ static Val run_srvm(const Val &c)
     long long i = 0;
     for (auto &conn : c.at(1).l) {
         log.v.add(Val::List({Val::Int(21), Val::Int(i++)}));
-        runConnection(server, log, conn);
+        runConnectionOn(server, log.v, conn);
     }
     delete server;
     QCoreApplication::sendPostedEvents(nullptr, QEvent::DeferredDelete);
